@@ -1800,18 +1800,49 @@ def extract_app_exit(src: Path) -> str:
     try:
         fn = find_def(parse(src / "protocol/h2.py"), "H2Protocol", "_reset_abandoned_response")
         body = [st for st in fn.body if not (isinstance(st, ast.Expr) and isinstance(st.value, ast.Constant))]  # type: ignore
-        ok = (len(body) == 2 and isinstance(body[0], ast.Assign) and ast.unparse(body[0]) == "buffer = self.stream_buffers.get(stream_id)"
-              and isinstance(body[1], ast.If) and not body[1].orelse)
-        if not ok:
-            fail(what, "body is not `buffer = self.stream_buffers.get(stream_id); if <guard>: …`")
+        # the local that holds the stream's buffer may have any name
+        var = None
+        if body and isinstance(body[0], ast.Assign) and len(body[0].targets) == 1 and isinstance(body[0].targets[0], ast.Name) \
+                and ast.unparse(body[0].value) == "self.stream_buffers.get(stream_id)":
+            var = body[0].targets[0].id
+
+            class _Ren(ast.NodeTransformer):
+                def visit_Name(self, node: ast.Name) -> Any:
+                    return ast.copy_location(ast.Name(id="buffer", ctx=node.ctx), node) if node.id == var else node
+            body = [_Ren().visit(st) for st in body]
+
+        def guard_atom(node: ast.AST, neg: bool) -> str:
+            if isinstance(node, ast.UnaryOp) and isinstance(node.op, ast.Not):
+                return guard_atom(node.operand, not neg)
+            u = ast.unparse(node)
+            table = {("buffer is not None", False): ".bufferExists", ("buffer is None", True): ".bufferExists",
+                     ("buffer._complete", True): ".bufferNotComplete",
+                     ("isinstance(self.streams.get(stream_id), HTTPStream)", False): ".isHttpStream"}
+            return table.get((u, neg), ".other")
+
+        # either `if A and B and C: <statements>` or guard clauses `if not A or not B: return` … followed by the statements
+        conj: List[str] = []
+        stmts: Optional[List[ast.stmt]] = None
+        rest = body[1:] if var is not None else []
+        if len(rest) == 1 and isinstance(rest[0], ast.If) and not rest[0].orelse:
+            t = rest[0].test
+            conj = [guard_atom(c, False) for c in (t.values if isinstance(t, ast.BoolOp) and isinstance(t.op, ast.And) else [t])]
+            stmts = rest[0].body
         else:
-            test = body[1].test
-            conj = test.values if isinstance(test, ast.BoolOp) and isinstance(test.op, ast.And) else [test]
-            atoms = {"buffer is not None": ".bufferExists", "not buffer._complete": ".bufferNotComplete",
-                     "isinstance(self.streams.get(stream_id), HTTPStream)": ".isHttpStream"}
-            gs = [atoms.get(ast.unparse(c), ".other") for c in conj]
+            k = 0
+            while k < len(rest) and isinstance(rest[k], ast.If) and not rest[k].orelse and len(rest[k].body) == 1 \
+                    and isinstance(rest[k].body[0], ast.Return) and rest[k].body[0].value is None:
+                t = rest[k].test
+                conj += [guard_atom(c, True) for c in (t.values if isinstance(t, ast.BoolOp) and isinstance(t.op, ast.Or) else [t])]
+                k += 1
+            if k > 0 and k < len(rest):
+                stmts = rest[k:]
+        if stmts is None:
+            fail(what, "body is not `<buffer> = self.stream_buffers.get(stream_id)` followed by `if <guard>: …` or by guard clauses and the statements")
+        else:
+            gs = conj
             if ".other" in gs:
-                fail("h2AbandonGuard", f"conjunct not recognised in `{ast.unparse(test)[:120]}`")
+                fail("h2AbandonGuard", f"conjunct of the guard not recognised ({gs})")
             g_out = "[" + ", ".join(gs) + "]"
 
             def only(stmts: List[ast.stmt], text: str) -> bool:
@@ -1861,7 +1892,7 @@ def extract_app_exit(src: Path) -> str:
                 return good
 
             acc3: List[str] = []
-            alin(body[1].body, acc3, False)
+            alin(stmts, acc3, False)
             s_out = "[" + ", ".join(acc3) + "]"
     except Exception as e:
         fail(what, f"{type(e).__name__}: {e}")
